@@ -398,8 +398,8 @@ def resolveActionConflicts (fuel : Nat) (actionable : List Key) : M (List Key) :
         if sameEvent then
           match winning.kind, winning.actionUid, competing.kind, competing.actionUid with
           | .action, some wu, .action, some cu =>
-            if cu ≠ wu then
-              let x ← getInstX k.1
+            -- fixes/C05-cowin-on-borrowed-action.diff: a flow that only holds a reference to an action of another flow keeps it
+            if cu ≠ wu && (← getInstX k.1).actionUids.contains cu then
               for (key, v) in ← getCtx k.1 do
                 match v with
                 | .ref "action" u =>
@@ -409,14 +409,14 @@ def resolveActionConflicts (fuel : Nat) (actionable : List Key) : M (List Key) :
                     | none => pyRaise "KeyError" wu
                     setCtxVar k.1 key (.ref "action" wu)
                 | _ => pure ()
-              if !x.actionUids.contains cu then pyRaise "ValueError" "is not in list"
+              -- (`action_uids.index(uid)` cannot raise: membership was tested above and the loop does not touch the list)
               let rec replaceFirst : List String → List String
                 | [] => []
                 | y :: ys => if y = cu then wu :: ys else y :: replaceFirst ys
               modInstX k.1 fun y => { y with actionUids := replaceFirst y.actionUids }
               -- (repair 2a6b31b, formerly finding `dangling-scope-action`): scopes that registered the replaced action refer to the winning one
               modInstX k.1 fun y => { y with scopes := y.scopes.map fun (n, (fl, al)) => (n, (fl, al.map fun u => if u = cu then wu else u)) }
-              if (← getAction? cu).isNone then pyRaise "KeyError" cu
+              -- fixes/C05-cowin-double-delete.diff: `state.actions.pop(uid, None)`
               modifyRest fun r => { r with actions := OMap.erase cu r.actions }
           | _, _, _, _ => pure ()
           advancing := advancing ++ [k]
